@@ -404,7 +404,7 @@ func genPointer(cur interface{}, forAdd bool, odd bool) string {
 		// through something missing
 		// (the token after the missing one decides, under EnsurePathExistsOnAdd, whether an array or an
 		// object is created: decimal digits of other scripts, signs and spaces are member names)
-		return l.ptr + "/" + pick("nope", "7", "a", "\xd9\xa3") + "/" + pick("a", "0", "-", "a", "0", "-", "\xd9\xa3", "\xef\xbc\x91\xef\xbc\x92", "\xe0\xa5\xa7", "1\xd9\xa3", "+1", "1e0", " 1", "0x1", "1_0")
+		return l.ptr + "/" + pick("nope", "7", "a", "\xd9\xa3") + "/" + pick("a", "0", "-", "a", "0", "-", "", "\xd9\xa3", "\xef\xbc\x91\xef\xbc\x92", "\xe0\xa5\xa7", "1\xd9\xa3", "+1", "1e0", " 1", "0x1", "1_0")
 	default:
 		if odd {
 			return pick(l.ptr+"/", "/", "//a", l.ptr+"/+1", l.ptr+"/01", l.ptr+"/-0", "a", "a/b", l.ptr+"/~2", l.ptr+"/~", l.ptr+"/9223372036854775808", l.ptr+"/00")
@@ -756,6 +756,16 @@ func mutate(s []byte) []byte {
 			p = 0
 		}
 		return append(b[:p:p], append(ps, b[p:]...)...)
+	}
+	if chance(0.06) {
+		// a run of 8, 16 or 24 identical white-space bytes (possibly after one of another kind) anywhere,
+		// also inside a string, where raw tabs are control characters
+		run := strings.Repeat(pick("\t", " ", "\t", "\n"), 8*(1+rng.Intn(3)))
+		if chance(0.6) {
+			run = pick(" ", "\t", "\n") + run
+		}
+		p := rng.Intn(len(b) + 1)
+		return append(b[:p:p], append([]byte(run), b[p:]...)...)
 	}
 	n := 1 + rng.Intn(3)
 	for i := 0; i < n; i++ {
